@@ -103,42 +103,74 @@ theorem wf_reachable {c : Cfg} (hc : c.WF) (ops : List Op) : St.WF c (run c St.e
   (run_invR hc ops St.empty [] (invR_empty c)).wf
 
 /-- doEthTransitions never hits the unregistered transition and never dereferences a missing
-    tracker, for every set of distinct ongoing names the iteration yields and every job-store
-    behaviour -/
-theorem endBlock_never_panics {c : Cfg} (hc : c.WF) (ops : List Op) (ns je : List Name) (hnd : ns.Nodup)
+    tracker, for every set of distinct ongoing names the iteration yields (since 7ff9062 there is no
+    job-store behaviour left to quantify over) -/
+theorem endBlock_never_panics {c : Cfg} (hc : c.WF) (ops : List Op) (ns : List Name) (hnd : ns.Nodup)
     (hin : ∀ n ∈ ns, has (run c St.empty ops).1.ongoing n = true) :
-    (step c (run c St.empty ops).1 (.endBlock ns je)).res ≠ .panic := by
-  obtain ⟨s', h⟩ := endBlock_some je ns (wf_reachable hc ops) hnd hin
+    (step c (run c St.empty ops).1 (.endBlock ns)).res ≠ .panic := by
+  obtain ⟨s', h⟩ := endNames_some ns (wf_reachable hc ops) hnd hin
   simp [step, h]
 
+/-- The block-end step is a function of chain state only (repair 7ff9062; this was suspect S3, which
+    made a restarted witness diverge): its only inputs are the state and the names the iteration of
+    the ongoing store yields — the keys of the committed tree, chain state as well.  There is no
+    witness-role or job-store input any more (`Op.endBlock` lost its `jobErr` argument, `transition`
+    its flag), and not even the configuration matters.  That the implementation is such a function
+    is what the engine checks: the same model agrees with witness and non-witness nodes and with
+    nodes whose witness role flips mid-history, so that their job store lacks the jobs. -/
+theorem block_end_is_a_function_of_chain_state (c c' : Cfg) (s : St) (ns : List Name) :
+    step c s (.endBlock ns) = step c' s (.endBlock ns) := rfl
+
+/-- the transition of a tracker at the block end is determined by its type, state and votes -/
+theorem transition_depends_on_record_only (t u : Tracker) (h1 : t.typ = u.typ) (h2 : t.state = u.state)
+    (h3 : t.votes = u.votes) (h4 : t.witnesses = u.witnesses) :
+    (transition t = .none ↔ transition u = .none) ∧ (transition t = .toPassed ↔ transition u = .toPassed) ∧
+    (transition t = .toFailed ↔ transition u = .toFailed) ∧ (transition t = .panic ↔ transition u = .panic) := by
+  have hy : t.yes = u.yes := by simp [Tracker.yes, h3]
+  have hn : t.no = u.no := by simp [Tracker.no, h3]
+  have hf : t.finalized = u.finalized := by unfold Tracker.finalized Tracker.threshold; rw [hy, h4]
+  unfold transition
+  rw [h1, h2, hy, hn, hf]
+  cases u.typ.isLock <;> cases u.state <;> simp <;> split <;> simp
+
 /-- no wrapped balance changes at the block end (in particular nothing is minted there) -/
-theorem block_end_moves_no_value (c : Cfg) (s : St) (ns je : List Name) :
-    (step c s (.endBlock ns je)).st.bal = s.bal ∧ (step c s (.endBlock ns je)).ev = [] := by
+theorem block_end_moves_no_value (c : Cfg) (s : St) (ns : List Name) :
+    (step c s (.endBlock ns)).st.bal = s.bal ∧ (step c s (.endBlock ns)).ev = [] := by
   simp only [step]
   split
   · exact ⟨rfl, rfl⟩
-  · rename_i s' h; exact ⟨endBlock_bal ns h, rfl⟩
+  · rename_i s' h; exact ⟨endNames_bal _ h, rfl⟩
+
+/-- after the block end no visited tracker is left Released or Failed in the ongoing store -/
+theorem block_end_archives_every_decided_tracker {c : Cfg} (hc : c.WF) (ops : List Op) (ns : List Name)
+    (hnd : ns.Nodup) (hin : ∀ n ∈ ns, has (run c St.empty ops).1.ongoing n = true) (n : Name) (hn : n ∈ ns)
+    (t : Tracker) (h : alookup n (step c (run c St.empty ops).1 (.endBlock ns)).st.ongoing = some t) :
+    t.state ≠ .released ∧ t.state ≠ .failed := by
+  obtain ⟨s', hs⟩ := endNames_some ns (wf_reachable hc ops) hnd hin
+  simp only [step, hs] at h
+  have key : ¬ t.decided := fun hd => (endNames_decided ns (wf_reachable hc ops) hs n t h hd).1 hn
+  exact ⟨fun e => key (Or.inl e), fun e => key (Or.inr e)⟩
 
 /-- Cleanup: a Released record is moved to the passed store (cleaned) and leaves the ongoing store -/
-theorem cleanup_moves_released {s : St} {t : Tracker} {n : Name} (je : List Name)
-    (hget : alookup n s.ongoing = some t) (hst : t.state = .released) (hj : je.contains n = false) :
-    endOne s je n = some { s with passed := upsert s.passed n t.clean, ongoing := aerase s.ongoing n } := by
+theorem cleanup_moves_released {s : St} {t : Tracker} {n : Name}
+    (hget : alookup n s.ongoing = some t) (hst : t.state = .released) :
+    endOne s n = some { s with passed := upsert s.passed n t.clean, ongoing := aerase s.ongoing n } := by
   unfold endOne; rw [hget]; simp only
-  unfold transition; rw [hst, hj]; cases t.typ.isLock <;> simp
+  rw [transition_released hst]
 
 /-- CleanupFailed: a Failed record is moved to the failed store -/
-theorem cleanup_moves_failed {s : St} {t : Tracker} {n : Name} (je : List Name)
-    (hget : alookup n s.ongoing = some t) (hst : t.state = .failed) (hj : je.contains n = false) :
-    endOne s je n = some { s with failed := upsert s.failed n t.clean, ongoing := aerase s.ongoing n } := by
+theorem cleanup_moves_failed {s : St} {t : Tracker} {n : Name}
+    (hget : alookup n s.ongoing = some t) (hst : t.state = .failed) :
+    endOne s n = some { s with failed := upsert s.failed n t.clean, ongoing := aerase s.ongoing n } := by
   unfold endOne; rw [hget]; simp only
-  unfold transition; rw [hst, hj]; cases t.typ.isLock <;> simp
+  rw [transition_failed hst]
 
 example : has (run exCfg St.empty exHonest).1.passed 7 = true ∧ has (run exCfg St.empty exHonest).1.ongoing 7 = false := by
   decide
--- the hypotheses of `endBlock_never_panics` hold on a state with an ongoing tracker, and the block end runs
+-- the hypotheses of `endBlock_never_panics` / `block_end_archives_every_decided_tracker` hold on a reachable state
 example : [7].Nodup ∧ (∀ n ∈ [7], has (run exCfg St.empty (exHonest.take 4)).1.ongoing n = true) ∧
-    (step exCfg (run exCfg St.empty (exHonest.take 4)).1 (.endBlock [7] [])).res = .ok "end" := by decide
--- a Released record and a job-error-free node: the hypotheses of `cleanup_moves_released`
+    (step exCfg (run exCfg St.empty (exHonest.take 4)).1 (.endBlock [7])).res = .ok "end" := by decide
+-- a Released record: the hypotheses of `cleanup_moves_released`
 example : (alookup 7 (run exCfg St.empty (exHonest.take 4)).1.ongoing).map (·.state) = some .released := by decide
 
 /-! ## 3. Mint: only after more than two thirds reported success, exactly the locked amount, to the submitter -/
@@ -235,10 +267,10 @@ theorem erc20_redeem_after_failed_redeem_is_refused :
 
 /-- the existence checks of ERC20_REDEEM now cover all three stores as well -/
 theorem duplicate_erc20_redeem_rejected (c : Cfg) (s : St) (pre : Nat) (tt : Bool) (o : Addr) (n : Name) (a : Nat)
-    (hpre : pre ≠ 9) (h : s.knows n = true) :
+    (h : s.knows n = true) :
     (step c s (.redeem true pre tt o n a)).st = s ∧ (step c s (.redeem true pre tt o n a)).ev = [] ∧
     ∃ r, (step c s (.redeem true pre tt o n a)).res = .fail r := by
-  simp only [step, redeemErc, hpre, if_false]
+  simp only [step, redeemErc]
   split; · exact ⟨rfl, rfl, _, rfl⟩
   split
   · exact ⟨rfl, rfl, _, rfl⟩
@@ -272,10 +304,10 @@ theorem duplicate_eth_lock_rejected (c : Cfg) (s : St) (pre : Nat) (l : Addr) (n
 
 /-- the existence checks of ETH_REDEEM cover all three stores -/
 theorem duplicate_eth_redeem_rejected (c : Cfg) (s : St) (pre : Nat) (tt : Bool) (o : Addr) (n : Name) (a : Nat)
-    (hpre : pre ≠ 9) (h : s.knows n = true) :
+    (h : s.knows n = true) :
     (step c s (.redeem false pre tt o n a)).st = s ∧ (step c s (.redeem false pre tt o n a)).ev = [] ∧
     ∃ r, (step c s (.redeem false pre tt o n a)).res = .fail r := by
-  simp only [step, redeemEth, hpre, if_false]
+  simp only [step, redeemEth]
   split; · exact ⟨rfl, rfl, _, rfl⟩
   split
   · exact ⟨rfl, rfl, _, rfl⟩
@@ -299,7 +331,7 @@ theorem duplicate_erc20_lock_rejected (c : Cfg) (s : St) (pre : Nat) (l : Addr) 
   simp only [step, lockErc]
   split; · exact ⟨rfl, rfl, by simp [failOut]⟩
   split; · exact ⟨rfl, rfl, by simp [failOut]⟩
-  split; · exact ⟨rfl, rfl, by simp⟩
+  split; · exact ⟨rfl, rfl, by simp [failOut]⟩
   split; · exact ⟨rfl, rfl, by simp [failOut]⟩
   split
   · exact ⟨rfl, rfl, by simp [failOut]⟩
@@ -347,7 +379,6 @@ theorem redeem_debits_before_tracker (c : Cfg) (s : St) (erc : Bool) (pre : Nat)
   · have : out = redeemEth c s pre o n a := rfl
     rw [this]; unfold redeemEth
     split; · exact Or.inl ⟨rfl, rfl⟩
-    split; · exact Or.inl ⟨rfl, rfl⟩
     split
     · exact Or.inl ⟨rfl, rfl⟩
     · rename_i b1 hb1
@@ -359,7 +390,6 @@ theorem redeem_debits_before_tracker (c : Cfg) (s : St) (erc : Bool) (pre : Nat)
         · exact Or.inr ⟨b1, hb1, hb2, rfl, by simp [subTyp], hle _ _ _ hb1⟩
   · have : out = redeemErc c s pre tt o n a := rfl
     rw [this]; unfold redeemErc
-    split; · exact Or.inl ⟨rfl, rfl⟩
     split; · exact Or.inl ⟨rfl, rfl⟩
     split
     · exact Or.inl ⟨rfl, rfl⟩
